@@ -13,11 +13,16 @@
 //!     request is pending: retryable, was connected)
 //!   9 upgrade, open the `opens` local connections at once (their Connect is never answered), hold,
 //!     then send an undecodable frame: fatal although a stream request is in flight
+//!  10 accept the TCP connection and never answer the TLS ClientHello, until the client gives up
+//!     (retryable, never connected).  A script containing a 10 runs the whole scenario over wss:// (the
+//!     fake server speaks TLS with a self-signed certificate, the client skips verification): the
+//!     handshake timeout bounds the whole attempt, TCP connect and TLS handshake included
 //!   8 refuse: the listener is closed while the client makes this attempt (ConnectionRefused:
 //!     retryable, never connected); `hold` of the first entry of a run of 8s = how long the listener
 //!     stays closed, counted from the previous observed failure (or from the client's start); the
 //!     attempt itself cannot be observed, so the measured gap spans it
-//! `opens` local TCP connections are opened to the client's listener right after the server has
+//! `opens` local connections are opened (in turn through the plain TCP remote, SOCKS5 CONNECT, SOCKS4 CONNECT and
+//! HTTP CONNECT listeners of the client) right after the server has
 //! failed that connection (i.e. while the tunnel is down), each sending 8 bytes it expects echoed.
 //! Connections after the script's end are treated as healthy.
 //!
@@ -37,7 +42,28 @@ use tokio::net::{TcpListener, TcpStream};
 use tokio_tungstenite::tungstenite::Message;
 use tokio_tungstenite::tungstenite::handshake::server::{Request, Response};
 
-async fn read_request(tcp: &mut TcpStream) -> bool {
+trait Rw: tokio::io::AsyncRead + tokio::io::AsyncWrite + Unpin + Send {}
+impl<T: tokio::io::AsyncRead + tokio::io::AsyncWrite + Unpin + Send> Rw for T {}
+type Io = Box<dyn Rw>;
+
+fn tls_acceptor() -> tokio_rustls::TlsAcceptor {
+    static ACC: std::sync::OnceLock<tokio_rustls::TlsAcceptor> = std::sync::OnceLock::new();
+    ACC.get_or_init(|| {
+        let kp = rcgen::KeyPair::generate().unwrap();
+        let params = rcgen::CertificateParams::new(vec!["127.0.0.1".to_string()]).unwrap();
+        let cert = params.self_signed(&kp).unwrap();
+        let key = rustls::pki_types::PrivateKeyDer::try_from(kp.serialize_der()).unwrap();
+        let cfg = rustls::ServerConfig::builder().with_no_client_auth().with_single_cert(vec![cert.der().clone()], key).unwrap();
+        tokio_rustls::TlsAcceptor::from(Arc::new(cfg))
+    })
+    .clone()
+}
+
+async fn read_request(tcp: &mut Io) -> bool {
+    tokio::time::timeout(Duration::from_secs(5), read_request_inner(tcp)).await.unwrap_or(false)
+}
+
+async fn read_request_inner(tcp: &mut Io) -> bool {
     let mut buf = Vec::new();
     let mut b = [0u8; 512];
     loop {
@@ -53,13 +79,13 @@ async fn read_request(tcp: &mut TcpStream) -> bool {
     }
 }
 
-async fn upgrade(tcp: TcpStream) -> Option<tokio_tungstenite::WebSocketStream<TcpStream>> {
+async fn upgrade(tcp: Io) -> Option<tokio_tungstenite::WebSocketStream<Io>> {
     #[allow(clippy::result_large_err)]
     let cb = |_req: &Request, mut resp: Response| {
         resp.headers_mut().insert("sec-websocket-protocol", http::HeaderValue::from_static(penguin_mux::PROTOCOL_VERSION));
         Ok(resp)
     };
-    tokio_tungstenite::accept_hdr_async(tcp, cb).await.ok()
+    tokio::time::timeout(Duration::from_secs(5), tokio_tungstenite::accept_hdr_async(tcp, cb)).await.ok()?.ok()
 }
 
 async fn free_port() -> u16 {
@@ -71,9 +97,13 @@ struct Local {
     served: Arc<AtomicU64>,
 }
 
-fn open_local(port: u16, id: u64) -> Local {
+/// one local connection through one of the client's TCP entry points (`via`: 0 plain TCP remote,
+/// 1 SOCKS5 CONNECT, 2 SOCKS4 CONNECT, 3 HTTP CONNECT), sending 8 bytes it expects echoed
+fn open_local(ports: [u16; 3], id: u64) -> Local {
     let served = Arc::new(AtomicU64::new(0));
     let s2 = served.clone();
+    let via = id % 4;
+    let port = match via { 0 => ports[0], 1 | 2 => ports[1], _ => ports[2] };
     tokio::spawn(async move {
         let mut sock = None;
         for _ in 0..200 {
@@ -86,6 +116,40 @@ fn open_local(port: u16, id: u64) -> Local {
             }
         }
         let Some(mut sock) = sock else { return };
+        match via {
+            1 => {
+                let mut b = [0u8; 10];
+                if sock.write_all(&[5, 1, 0]).await.is_err() || sock.read_exact(&mut b[..2]).await.is_err() || b[..2] != [5, 0] {
+                    return;
+                }
+                if sock.write_all(&[5, 1, 0, 1, 127, 0, 0, 1, 0, 7]).await.is_err() || sock.read_exact(&mut b).await.is_err() || b[1] != 0 {
+                    return;
+                }
+            }
+            2 => {
+                let mut b = [0u8; 8];
+                if sock.write_all(&[4, 1, 0, 7, 127, 0, 0, 1, 0]).await.is_err() || sock.read_exact(&mut b).await.is_err() || b[1] != 0x5a {
+                    return;
+                }
+            }
+            3 => {
+                if sock.write_all(b"CONNECT 127.0.0.1:7 HTTP/1.1\r\nHost: 127.0.0.1:7\r\n\r\n").await.is_err() {
+                    return;
+                }
+                let mut head = Vec::new();
+                let mut b = [0u8; 1];
+                while !head.ends_with(b"\r\n\r\n") {
+                    match sock.read(&mut b).await {
+                        Ok(1) => head.push(b[0]),
+                        _ => return,
+                    }
+                }
+                if !head.starts_with(b"HTTP/1.1 200") {
+                    return;
+                }
+            }
+            _ => {}
+        }
         let msg = id.to_be_bytes();
         if sock.write_all(&msg).await.is_err() {
             return;
@@ -105,10 +169,16 @@ async fn scenario(c: Vec<u64>) -> Vec<u64> {
     let script: Vec<(u64, u64, u64)> = c[4..].chunks(3).filter(|x| x.len() == 3).map(|x| (x[0], x[1], x[2])).collect();
     let mut listener = Some(TcpListener::bind("127.0.0.1:0").await.unwrap());
     let sport = listener.as_ref().unwrap().local_addr().unwrap().port();
-    let lport = free_port().await;
+    let lport = [free_port().await, free_port().await, free_port().await];
+    let tls = script.iter().any(|e| e.0 == 10);
     let args: &'static ClientArgs = Box::leak(Box::new(ClientArgs {
-        server: ServerUrl::from_str(&format!("ws://127.0.0.1:{sport}/ws")).unwrap(),
-        remote: vec![Remote::from_str(&format!("127.0.0.1:{lport}:127.0.0.1:7")).unwrap()],
+        server: ServerUrl::from_str(&format!("{}://127.0.0.1:{sport}/ws", if tls { "wss" } else { "ws" })).unwrap(),
+        tls_skip_verify: tls,
+        remote: vec![
+            Remote::from_str(&format!("127.0.0.1:{}:127.0.0.1:7", lport[0])).unwrap(),
+            Remote::from_str(&format!("127.0.0.1:{}:socks", lport[1])).unwrap(),
+            Remote::from_str(&format!("127.0.0.1:{}:http", lport[2])).unwrap(),
+        ],
         keepalive: penguin_mux::timing::OptionalDuration::NONE,
         max_retry_count: max_count,
         max_retry_interval: max_ms,
@@ -190,7 +260,7 @@ async fn scenario(c: Vec<u64>) -> Vec<u64> {
                 break;
             }
         };
-        let Ok((mut tcp, _)) = acc else { continue };
+        let Ok((tcp, _)) = acc else { continue };
         let now = Instant::now();
         if let Some(t) = last_fail.take() {
             delays.push(now.duration_since(t).as_millis() as u64);
@@ -199,6 +269,18 @@ async fn scenario(c: Vec<u64>) -> Vec<u64> {
         idx += 1;
         attempts += 1;
         let hold = Duration::from_millis(hold);
+        let mut tcp: Io = if tls && kind != 10 {
+            match tokio::time::timeout(Duration::from_secs(5), tls_acceptor().accept(tcp)).await {
+                Ok(Ok(s)) => Box::new(s),
+                _ => {
+                    // the client left during the TLS handshake: counts as a failed attempt of this kind
+                    last_fail = Some(Instant::now());
+                    continue;
+                }
+            }
+        } else {
+            Box::new(tcp)
+        };
         match kind {
             1 => {
                 read_request(&mut tcp).await;
@@ -210,10 +292,19 @@ async fn scenario(c: Vec<u64>) -> Vec<u64> {
                 let _ = tcp.shutdown().await;
                 drop(tcp);
             }
-            5 => {
+            5 | 10 => {
                 let mut b = [0u8; 512];
-                while let Ok(n) = tcp.read(&mut b).await {
-                    if n == 0 { break; }
+                let gave_up = tokio::time::timeout(Duration::from_millis(hs_ms + 3000), async {
+                    while let Ok(n) = tcp.read(&mut b).await {
+                        if n == 0 { break; }
+                    }
+                })
+                .await
+                .is_ok();
+                if !gave_up {
+                    // the client is still in this attempt long after its handshake timeout: it hangs
+                    final_code = 8;
+                    break;
                 }
             }
             2 => {
@@ -375,8 +466,12 @@ pub fn generate(a: &Args, out: &mut Out) {
         vec![1000, 0, 400, 2000, 6, 50, 0],
         // stalled handshake
         vec![1000, 3, 300, 2000, 5, 0, 0, 1, 0, 0],
+        // the same within the TLS handshake (the whole scenario over wss://)
+        vec![1000, 3, 300, 2000, 10, 0, 0, 1, 0, 0, 10, 0, 1, 3, 60, 0],
         // local connections opened while down are served by the next good connection
         vec![400, 0, 400, 2000, 1, 0, 2, 3, 80, 1, 1, 0, 1],
+        // a burst of local connections (more than the request queue holds) through all four TCP entry points while down
+        vec![400, 0, 400, 2000, 1, 0, 90, 1, 0, 0],
         // stream request times out, then served
         vec![400, 0, 400, 300, 7, 3000, 1, 1, 0, 0],
         // refused connections: at the start, and between other failures
@@ -398,7 +493,7 @@ pub fn generate(a: &Args, out: &mut Out) {
         let n = 1 + rng.below(5);
         let mut c = vec![max_ms, max_count, hs, ch];
         for _ in 0..n {
-            let kind = rng.pick(&[1u64, 1, 1, 2, 2, 3, 3, 5, 7, 4, 6, 0, 8, 8, 9]);
+            let kind = rng.pick(&[1u64, 1, 1, 2, 2, 3, 3, 5, 7, 4, 6, 0, 8, 8, 9, 10]);
             let hold = rng.pick(&[0u64, 30, 120]);
             let opens = if rng.chance(1, 3) { 1 + rng.below(2) } else { 0 };
             c.extend([kind, if kind == 7 { 3000 } else if kind == 9 { 120 } else { hold }, if kind == 9 { opens.max(1) } else if kind == 8 { 0 } else { opens }]);
